@@ -191,4 +191,7 @@ def harness(sym, part):
 MUTANTS = [
     ('remoter-close-no-close', 'hio/core/tcp/serving.py', "            self.shutdown()\n            self.cs.close()  #close socket\n            self.cs = None\n\n\n    def refresh(self):",
      "            self.shutdown()\n            self.cs = None\n\n\n    def refresh(self):"),
+    ('acceptor-close-only-when-opened', 'hio/core/tcp/serving.py',
+     "        if self.ss:\n            try:\n                self.ss.shutdown(socket.SHUT_RDWR)  # shutdown socket",
+     "        if self.opened:\n            try:\n                self.ss.shutdown(socket.SHUT_RDWR)  # shutdown socket"),
 ]
